@@ -560,8 +560,19 @@ struct Config
     // ---------------------------------------------------------------- running
     static int vidx(const std::string& s) { return std::atoi(s.c_str() + 1); }
 
+    bool after_fault = false;  // an operation of this sequence ended in bad_alloc
+
     void flush_violations(const std::string& op)
     {
+        // C17: after a throwing allocation every operand must still be a valid vector: a structural monitor (layout inside
+        // the block, empty ranges of empty vectors) that fires afterwards is a C17 violation with this sequence as its input
+        if (after_fault)
+        {
+            std::string first;
+            for (auto& s : hv::violations())
+                if (first.empty() && (s.rfind("C02:", 0) == 0 || s.rfind("C03:", 0) == 0 || s.rfind("C04:", 0) == 0 || s.rfind("C18:", 0) == 0)) first = s;
+            if (!first.empty()) hv::violations().push_back("C17:operand-invalid-after-bad_alloc (" + first + ")");
+        }
         for (auto& s : hv::violations()) out << "!viol " << s << " op=" << op << "\n";
         hv::violations().clear();
     }
@@ -842,6 +853,7 @@ struct Config
             const bool eq = x == y, ne = x != y, lt = x < y, le = x <= y, gt = x > y, ge = x >= y, ylx = y < x;
             out << "cmpv eq=" << eq << " ne=" << ne << " lt=" << lt << " le=" << le << " gt=" << gt << " ge=" << ge << "\n";
             if (vec[a].oracle_valid && vec[b].oracle_valid && eq != (vec[a].oracle == vec[b].oracle)) violation("C13:vector-equality-differs-from-content");
+            if (x.empty() && y.empty() && (!eq || ne || lt || gt || !le || !ge)) violation("C18:empty-vectors-do-not-compare-equal");
             if (ne == eq) violation("C13:vector-ne-is-not-negation");
             if ((y == x) != eq) violation("C13:vector-equality-not-symmetric");
             if (gt != ylx || le != !ylx || ge != !lt) violation("C14:vector-operators-inconsistent");
@@ -1240,6 +1252,7 @@ struct Config
             catch (const std::bad_alloc&)
             {
                 out << "threw bad_alloc\n";
+                after_fault = true;
             }
             flush_violations(t[0]);
             out.flush();
